@@ -1,6 +1,5 @@
 import SSVerif.Props.C10
 open SSVerif.TextIn
-#print axioms C10_parsers_total
 #print axioms C10_line_loop_bounded
 #print axioms C10_nextLine_in_bounds
 #print axioms C10_lines_tile_buffer
